@@ -351,6 +351,32 @@ func genConstOpt(b *builder, c *corpus, nSites int) {
 		rm, _ := b.resolve(t2, m, cs, lref)
 		b.add(t2, b.backendOp(pick(b.r, []string{proto.OpSpirv, proto.OpHLSL, proto.OpDXIL}), rm))
 	}
+	if n == 1 && len(b.sc.Tasks[t]) == 2 && b.r.chance(0.8) {
+		// two resolutions through back-end options at the same time: the other
+		// back-end kind, its own value map, the same original (task t runs
+		// nothing else on it, so no two operations of one kind overlap)
+		first := b.sc.Tasks[t][len(b.sc.Tasks[t])-1]
+		for i := len(b.sc.Tasks[t]) - 1; i >= 0; i-- {
+			if hasConsts(&b.sc.Tasks[t][i]) {
+				first = b.sc.Tasks[t][i]
+			}
+		}
+		t3 := b.task()
+		cs, _ := constsFor(b.r, p)
+		var ref proto.Ref
+		if first.Kind == proto.OpGLSL {
+			op := b.backendOp(proto.OpMSL, m, lref)
+			op.MSL.HasConsts, op.MSL.Consts = true, cs
+			ref = b.add(t3, op)
+		} else {
+			op := b.backendOp(proto.OpGLSL, m, lref)
+			op.GLSL.HasConsts, op.GLSL.Consts = true, cs
+			ref = b.add(t3, op)
+		}
+		if missingRequired(p, cs) {
+			b.expectErr[ref] = true
+		}
+	}
 	b.drawFaults(nSites, true)
 }
 
